@@ -30,7 +30,7 @@ pub fn make_case_mode(inp: &ExecInput, lazy: bool) -> Option<Case> {
     let matches_t = if lazy { file_matches_term(&file, &tree, &info) } else { matches_t };
     let mut rx_terms = Vec::new();
     for pat in &d.regexes { rx_terms.push(crate::c10::parse_regex(pat)?.coq()); }   // outside the modelled sub-language: skip
-    let args = format!("({}) ({}) {} {} {}", tree_t, file_t, coq_list(&rx_terms), globals_term(&inp.supplied), matches_t);
+    let args = format!("({}) ({}) {} {} {} {}", tree_t, file_t, coq_list(&rx_terms), replace_table(&inp.dsl), globals_term(&inp.supplied), matches_t);
     let mut tags = vec![format!("outcome:{}", obs.class()), format!("stanzas:{}", file.stanzas.len()), format!("matches:{}", (nmatches / 10) * 10)];
     if let Obs::Err(c, _) = &obs { tags.push(format!("err:{}", c)); }
     for kw in ["scan ", "for ", "if ", "var ", "set ", "attribute ", "global ", "inherit "] { if inp.dsl.contains(kw) { tags.push(format!("has:{}", kw.trim())); } }
@@ -45,6 +45,35 @@ pub fn make_case_mode(inp: &ExecInput, lazy: bool) -> Option<Case> {
     })
 }
 
+/// Patterns that `replace` may be called with: every string literal of the DSL text that parses in the
+/// regex sub-language, cannot match the empty string and has no anchors.
+pub fn replace_table(dsl: &str) -> String {
+    use crate::c10::RegexAst as R;
+    fn anchored(r: &R) -> bool {
+        match r { R::Bol | R::Eol | R::Wb => true, R::Seq(a, b) | R::Alt(a, b) => anchored(a) || anchored(b),
+                  R::Grp(_, a) | R::Opt(a) | R::Star(a) | R::Plus(a) => anchored(a), _ => false }
+    }
+    let mut out: Vec<String> = Vec::new();
+    let mut seen: Vec<String> = Vec::new();
+    let chars: Vec<char> = dsl.chars().collect();
+    let mut i = 0;
+    while i < chars.len() {
+        if chars[i] == '"' {
+            let mut j = i + 1; let mut lit = String::new();
+            while j < chars.len() && chars[j] != '"' {
+                if chars[j] == '\\' && j + 1 < chars.len() { j += 1; lit.push(match chars[j] { 'n' => '\n', 't' => '\t', 'r' => '\r', '0' => '\0', c => c }); } else { lit.push(chars[j]); }
+                j += 1;
+            }
+            if !seen.contains(&lit) {
+                seen.push(lit.clone());
+                if let Some(r) = crate::c10::parse_regex(&lit) { if !r.can_empty() && !anchored(&r) { out.push(format!("({}, {})", coq_str(&lit), r.coq())); } }
+            }
+            i = j + 1;
+        } else { i += 1; }
+    }
+    coq_list(&out)
+}
+
 pub fn gen_input(rng: &mut Rng, opts: &GenOpts) -> ExecInput {
     let p = gen_program(rng, opts);
     let src = gen_source(rng);
@@ -55,7 +84,6 @@ pub fn gen(rng: &mut Rng, n: usize) -> Vec<Case> { gen_mode(rng, n, false) }
 pub fn gen_mode(rng: &mut Rng, n: usize, lazy: bool) -> Vec<Case> {
     quiet_panics();
     let mut opts = GenOpts::full();
-    opts.stdlib = false;   // TEMP until the Stdlib model is merged
     let mut out = Vec::new();
     let mut tries = 0;
     while out.len() < n && tries < n * 20 {
